@@ -26,6 +26,7 @@ type caseParams struct {
 	pfMille int
 	hdrs    bool
 	target  uint32
+	stopAt  int // the subject only accepts the first stopAt blocks (headers may go further); 0 = all
 }
 
 func drawParams(k int, r *prng.R, tier string) caseParams {
@@ -41,6 +42,11 @@ func drawParams(k int, r *prng.R, tier string) caseParams {
 		p.pfMille, p.kind = 0, "reset"
 	case k == 2:
 		p.kind = "gc"
+	case k == 3: // reset of a node whose headers are ahead of its blocks
+		p.kind, p.hdrs, p.stopAt = "reset", true, p.n-r.Range(2, 6)
+	case k == 4: // reset to the current height, only headers to drop
+		p.kind, p.hdrs, p.stopAt = "reset", true, p.n-r.Range(2, 6)
+		p.target = uint32(p.stopAt)
 	default:
 		switch r.Weighted([]int{45, 45, 10}) {
 		case 1:
@@ -56,10 +62,17 @@ func drawParams(k int, r *prng.R, tier string) caseParams {
 		p.pfMille = 250
 		p.hdrs = false
 	}
-	if p.kind == "reset" {
-		p.target = uint32(r.Range(1, p.n-1))
+	if p.kind == "reset" && p.target == 0 {
+		top := p.n
+		if p.stopAt == 0 && r.Chance(1, 4) {
+			p.stopAt = p.n - r.Range(1, 5)
+		}
+		if p.stopAt != 0 {
+			top = p.stopAt
+		}
+		p.target = uint32(r.Range(1, top-1))
 		if r.Chance(1, 4) {
-			p.target = uint32(p.n - 1)
+			p.target = uint32(top - 1)
 		}
 	}
 	return p
@@ -78,6 +91,18 @@ func runCase(k int, seed uint64, tier string) *caseOut {
 	base := h.Cfg
 	cfg := nodeConfig(h, base, p.local)
 	steps := genSchedule(r, h.N(), p.pfMille, p.hdrs)
+	if p.stopAt != 0 {
+		// keep the steps up to block stopAt, then (maybe) all headers
+		var cut []Step
+		for _, s := range steps {
+			if s.Kind == "blk" && int(s.H) > p.stopAt {
+				break
+			}
+			cut = append(cut, s)
+		}
+		steps = append(cut, Step{"hdr", h.N()})
+		c.cnt.count("subject:stops-with-headers-ahead")
+	}
 	var sr *subjectRun
 	for attempt := 0; attempt < 3; attempt++ {
 		sr, err = runSubject(h, cfg, p.local, steps)
@@ -132,7 +157,7 @@ func main() {
 	f := hx.ParseFlags()
 	o := hx.NewOut(f.Out)
 	defer o.Close()
-	n := f.N(8, 60)
+	n := f.N(24, 200)
 	var ks []int
 	for k := 0; k < n; k++ {
 		if f.Want(k) {
